@@ -348,7 +348,7 @@ Section EvaluatorsProofs.
 
   Definition wc_fin (d : design) (ks : list T) : design :=
     let x := psum (map (fun k => abs (sub (c0 (d_costs T d)) k)) ks) in
-    if S m <? length (d_costs T d)
+    if S m <=? length (d_costs T d)
     then set_sens T d (set_last x (d_costs T d)) (set_m2 (SV x) (d_signed T d)) x
     else set_sens T d (d_costs T d ++ [x]) (insert_m1 (SV x) (d_signed T d)) x.
 
@@ -359,7 +359,7 @@ Section EvaluatorsProofs.
     wc_post T sub abs zero psum m h id = hupd h id (wc_fin (get h id) (kid_c0 h (get h id))).
   Proof.
     unfold wc_post, wc_fin, wc_sens, kid_c0. rewrite map_map.
-    destruct (S m <? length (d_costs T (get h id))); reflexivity.
+    destruct (S m <=? length (d_costs T (get h id))); reflexivity.
   Qed.
 
   Lemma g_post_fin h id :
@@ -810,7 +810,7 @@ Section EvaluatorsProofs.
   Lemma wc_fin_fields d ks :
     vec (wc_fin d ks) = vec d /\ d_parents T (wc_fin d ks) = d_parents T d /\
     kids (wc_fin d ks) = kids d /\ d_state T (wc_fin d ks) = d_state T d /\ d_grad T (wc_fin d ks) = d_grad T d.
-  Proof. unfold wc_fin. destruct (S m <? length (d_costs T d)); repeat split; reflexivity. Qed.
+  Proof. unfold wc_fin. destruct (S m <=? length (d_costs T d)); repeat split; reflexivity. Qed.
 
   Lemma wc_fin_fresh v l : length (f v) = m ->
     wc_fin (set_children T (evald (fresh v)) l) (map (fun w => c0 (f w)) (wcv v)) =
@@ -819,7 +819,7 @@ Section EvaluatorsProofs.
        d_state := EVALUATED; d_parents := []; d_children := l; d_sens := Some (wc_S v); d_grad := None |}.
   Proof.
     intros Hm. unfold wc_fin. cbn [d_costs set_children evald set_eval d_signed d_vec fresh].
-    rewrite Hm. assert (E : S m <? m = false) by (apply Nat.ltb_ge; lia). rewrite E.
+    rewrite Hm. assert (E : S m <=? m = false) by (apply Nat.leb_gt; lia). rewrite E.
     rewrite map_map. fold (wc_S v). unfold set_sens. cbn. rewrite insert_m1_snoc. reflexivity.
   Qed.
 
@@ -988,5 +988,805 @@ Section EvaluatorsProofs.
     exists s, idss. repeat split; try assumption.
     apply (Forall2_impl (Forall2 (g_done (heap_of s)))); [|exact D].
     intros ids b _ Hb. apply (Forall2_length _ _ _ Hb).
+  Qed.
+  (* ================= batches that may contain designs that are not fresh ================= *)
+  Lemma is_empty_set_children d l : is_empty (set_children T d l) = is_empty d.
+  Proof. reflexivity. Qed.
+  Lemma evald_set_children d l : evald (set_children T d l) = set_children T (evald d) l.
+  Proof. reflexivity. Qed.
+
+  Section GenBatch.
+    Variable cv : list T -> list (list T).
+    Variable G : design -> list T -> design.
+    Variable FIN : list T -> list nat -> design.        (* the finished form of a design, given its children *)
+    Variable topform : list T -> design -> Prop.        (* what a submitted design may look like *)
+    Hypothesis H_vec : forall v d, topform v d -> vec d = v.
+    Hypothesis H_fin : forall v d l, topform v d ->
+      G (set_children T (if is_empty d then evald d else d) l) (map (fun w => c0 (f w)) (cv v)) = FIN v l.
+
+    Definition gdone (h : heap) (id : nat) (v : list T) : Prop :=
+      exists lo, lo + length (cv v) <= nxt h /\ get h id = FIN v (seq lo (length (cv v))) /\
+        forall k, k < length (cv v) -> get h (lo + k) = evald (child_of (nth k (cv v) []) id).
+
+    Lemma grun_spec (sA : st) (ids : list nat) :
+      let hA := s_heap T sA in
+      s_inds T sA = [] -> s_todo T sA = [] -> NoDup ids -> (forall id, In id ids -> id < nxt hA) ->
+      (forall id, In id ids -> topform (vec (get hA id)) (get hA id)) ->
+      let sB := fold_left (gen_add cv) ids sA in
+      forall hC logC, evs (s_heap T sB, s_log T sB) (s_todo T sB) = (hC, logC) ->
+      let hD := fold_left (fun h id => hupd h id (G (get h id) (kid_c0 h (get h id)))) (s_inds T sB) hC in
+      s_inds T sB = ids /\
+      nxt hA <= nxt hD /\
+      (forall j, j < nxt hA -> ~ In j ids -> get hD j = get hA j) /\
+      (forall id, In id ids -> exists lo, nxt hA <= lo /\ lo + length (cv (vec (get hA id))) <= nxt hD /\
+          get hD id = FIN (vec (get hA id)) (seq lo (length (cv (vec (get hA id))))) /\
+          forall k, k < length (cv (vec (get hA id))) ->
+                    get hD (lo + k) = evald (child_of (nth k (cv (vec (get hA id))) []) id)) /\
+      logC = s_log T sA ++
+             flat_map (fun id => (if is_empty (get hA id) then [vec (get hA id)] else []) ++ cv (vec (get hA id))) ids /\
+      s_proc T sB = s_proc T sA.
+    Proof.
+      intros hA Hi Ht Hnd Hlt Htop sB hC logC EC hD.
+      pose proof (fold_add_spec cv ids sA Hnd Hlt) as HB. cbn zeta in HB. fold sB in HB. fold hA in HB.
+      destruct HB as (NB & OB & PB & IB & TB & DB & XB & LB & RB).
+      set (hB := s_heap T sB) in *.
+      set (blk := fun id => id :: kids (get hB id)) in *.
+      rewrite Hi in IB. rewrite Ht in TB. cbn [app] in IB, TB.
+      rewrite TB in EC. rewrite LB in EC.
+      destruct (eval_serial_spec _ _ _ DB _ _ EC) as (NC & CA & CB & CC & CL).
+      assert (TopC : forall id, In id ids -> exists lo, nxt hA <= lo /\ lo + length (cv (vec (get hA id))) <= nxt hC /\
+                 get hB id = set_children T (get hA id) (seq lo (length (cv (vec (get hA id))))) /\
+                 get hC id = set_children T (if is_empty (get hA id) then evald (get hA id) else get hA id)
+                                           (seq lo (length (cv (vec (get hA id))))) /\
+                 (forall k', k' < length (cv (vec (get hA id))) ->
+                            get hB (lo + k') = child_of (nth k' (cv (vec (get hA id))) []) id) /\
+                 forall k', k' < length (cv (vec (get hA id))) ->
+                            get hC (lo + k') = evald (child_of (nth k' (cv (vec (get hA id))) []) id)).
+      { intros id Hin. destruct (PB _ Hin) as (lo & B1 & B2 & B3 & B4).
+        assert (Hint : In id (flat_map blk ids)).
+        { apply in_flat_map. exists id. split; [exact Hin|left; reflexivity]. }
+        exists lo. repeat split.
+        - exact B1.
+        - rewrite NC. exact B2.
+        - exact B3.
+        - destruct (is_empty (get hB id)) eqn:Em.
+          + rewrite (CA _ Hint Em), B3. rewrite B3, is_empty_set_children in Em. rewrite Em. reflexivity.
+          + rewrite (CB _ Hint Em), B3. rewrite B3, is_empty_set_children in Em. rewrite Em. reflexivity.
+        - exact B4.
+        - intros k' Hk'.
+          assert (Hint' : In (lo + k') (flat_map blk ids)).
+          { apply in_flat_map. exists id. split; [exact Hin|]. right. unfold blk. rewrite B3. cbn.
+            apply in_seq. lia. }
+          rewrite (CA _ Hint'); rewrite (B4 k' Hk'); reflexivity. }
+      assert (KidsC : forall id c, In id ids -> In c (kids (get hC id)) -> ~ In c ids).
+      { intros id c Hin Hc Hcin. destruct (TopC id Hin) as (lo & C1 & C2 & _ & C3 & _).
+        rewrite C3 in Hc. cbn in Hc. apply in_seq in Hc. apply Hlt in Hcin. lia. }
+      pose proof (fold_post_spec G ids hC Hnd KidsC) as HD. cbn zeta in HD.
+      unfold hD. rewrite IB. destruct HD as (ND & DA & DO).
+      set (hD' := fold_left (fun h id => hupd h id (G (get h id) (kid_c0 h (get h id)))) ids hC) in *.
+      repeat split.
+      - rewrite ND, NC. exact NB.
+      - intros j Hj J1. rewrite DO by exact J1. rewrite CC.
+        + apply OB; assumption.
+        + intro Hin. destruct (XB _ Hin) as [Hin'|Hge]; [exact (J1 Hin')|lia].
+      - intros id Hin. destruct (TopC id Hin) as (lo & C1 & C2 & _ & C3 & _ & C4).
+        exists lo. repeat split.
+        + exact C1.
+        + rewrite ND. exact C2.
+        + rewrite (DA _ Hin), C3. rewrite <- (H_fin _ _ (seq lo (length (cv (vec (get hA id))))) (Htop id Hin)).
+          f_equal. unfold kid_c0. cbn [d_children set_children].
+          apply map_seq_nth_gen with (d := []). intros k' Hk'. rewrite (C4 k' Hk'). reflexivity.
+        + intros k' Hk'. rewrite DO; [apply C4; exact Hk'|].
+          intro Hin'. apply Hlt in Hin'. lia.
+      - rewrite CL. f_equal.
+        rewrite filter_flat_map.
+        rewrite (flat_map_ext_in _ (fun id => (if is_empty (get hA id) then [id] else []) ++ kids (get hB id))).
+        2:{ intros id Hin. destruct (TopC id Hin) as (lo & C1 & C2 & B3 & _ & B4 & _).
+            unfold blk. cbn [filter]. rewrite B3 at 1. rewrite is_empty_set_children.
+            assert (Hall : filter (fun j => is_empty (get hB j)) (kids (get hB id)) = kids (get hB id)).
+            { apply filter_all. intros x Hx. rewrite B3 in Hx. cbn in Hx. apply in_seq in Hx.
+              replace x with (lo + (x - lo)) by lia. rewrite B4 by lia. reflexivity. }
+            rewrite Hall. destruct (is_empty (get hA id)); reflexivity. }
+        rewrite map_flat_map. apply flat_map_ext_in.
+        intros id Hin. destruct (TopC id Hin) as (lo & C1 & C2 & B3 & _ & B4 & _).
+        rewrite map_app. f_equal.
+        + destruct (is_empty (get hA id)); [|reflexivity]. cbn. rewrite B3. reflexivity.
+        + rewrite B3. cbn [d_children set_children].
+          apply map_seq_nth with (d := []). intros k' Hk'. rewrite (B4 k' Hk'). reflexivity.
+      - exact RB.
+    Qed.
+  End GenBatch.
+  (* ---- building a batch from items ---- *)
+  Local Notation item := (item T).
+  Local Notation mkb := (mk_batch T f sgn infeas).
+
+  Fixpoint pre_vecs (items : list item) : list (list T) :=
+    match items with [] => [] | Pre v :: r => v :: pre_vecs r | _ :: r => pre_vecs r end.
+
+  (* what an item's cell looks like when the batch is handed to evaluate() *)
+  Definition item_cell (h h' : heap) (created : list nat) (it : item) (id : nat) : Prop :=
+    match it with
+    | New v => get h' id = fresh v /\ nxt h <= id < nxt h'
+    | Pre v => get h' id = evald (fresh v) /\ nxt h <= id < nxt h'
+    | Old k => id = nth k created 0
+    end.
+
+  Lemma mk_batch_spec : forall items (h : heap) log created h' log' ids nw,
+    mkb (h, log) created items = ((h', log'), ids, nw) ->
+    nxt h' = nxt h + length (new_vecs T items) /\
+    (forall j, j < nxt h -> get h' j = get h j) /\
+    nw = seq (nxt h) (length (new_vecs T items)) /\
+    Forall2 (fun id v => vec (get h' id) = v) nw (new_vecs T items) /\
+    Forall2 (item_cell h h' created) items ids /\
+    log' = log ++ pre_vecs items /\
+    (forall x, In x nw -> In x ids) /\
+    Forall2 (fun it id => forall v, it = New v \/ it = Pre v -> In (id, v) (combine nw (new_vecs T items))) items ids /\
+    (NoDup created -> (forall c, In c created -> c < nxt h) ->
+     NoDup (olds T items) -> Forall (fun k => k < length created) (olds T items) ->
+     NoDup ids /\
+     forall id, In id ids -> nxt h <= id < nxt h' \/ exists k, In k (olds T items) /\ id = nth k created 0).
+  Proof.
+    induction items as [|it items IH]; intros h log created h' log' ids nw Hmk.
+    - cbn in Hmk. inversion Hmk; subst. cbn. rewrite app_nil_r.
+      repeat split; auto; try constructor; try lia. all: try contradiction.
+    - destruct it as [v|v|k]; cbn [mk_batch alloc fst snd] in Hmk.
+      + set (h1 := {| h_next := S (nxt h); h_get := fun j => if j =? nxt h then fresh v else get h j |}) in Hmk.
+        destruct (mkb (h1, log) created items) as [[hl2 ids2] nw2] eqn:E. inversion Hmk; subst. clear Hmk.
+        destruct (IH _ _ _ _ _ _ _ E) as (N & O & W & V & C & L & SUB & PR & D).
+        assert (N1 : nxt h1 = S (nxt h)) by reflexivity.
+        assert (Gid : get h' (nxt h) = fresh v).
+        { rewrite O by (rewrite N1; lia). unfold h1. cbn. rewrite Nat.eqb_refl. reflexivity. }
+        cbn [new_vecs length pre_vecs olds]. split; [rewrite N, N1; lia|]. split.
+        { intros j Hj. rewrite O by (rewrite N1; lia). unfold h1. cbn.
+          assert (Hne : j <> nxt h) by lia. apply Nat.eqb_neq in Hne. rewrite Hne. reflexivity. }
+        split; [rewrite W, N1; reflexivity|]. split; [constructor; [rewrite Gid; reflexivity|exact V]|].
+        split.
+        { constructor.
+          - cbn. split; [exact Gid|]. rewrite N, N1. lia.
+          - apply (Forall2_impl (item_cell h1 h' created)); [|exact C].
+            intros it id _ Hc. destruct it as [w|w|k']; cbn [item_cell] in *; [| |exact Hc].
+            + destruct Hc as [A B]. split; [exact A|lia].
+            + destruct Hc as [A B]. split; [exact A|lia]. }
+        split; [exact L|]. split.
+        { intros x [Ex|Hx]; [left; exact Ex|right; apply SUB; exact Hx]. }
+        split.
+        { constructor.
+          - intros w [Ew|Ew]; inversion Ew; subst; left; reflexivity.
+          - revert PR. apply Forall2_impl. intros it id _ Hp w Hw. right. apply Hp. exact Hw. }
+        intros Hcr Hlt Hnd Hk.
+        assert (Hlt1 : forall c, In c created -> c < nxt h1) by (intros c Hc; apply Hlt in Hc; lia).
+        destruct (D Hcr Hlt1 Hnd Hk) as [A B]. split.
+        * constructor; [|exact A]. intro Hin. destruct (B _ Hin) as [Hr|(k & Hkin & Ek)]; [lia|].
+          rewrite Forall_forall in Hk. specialize (Hk k Hkin).
+          assert (nxt h < nxt h) by (rewrite Ek at 1; apply Hlt; apply nth_In; exact Hk). lia.
+        * intros x [Ex|Hin]; [subst; left; rewrite N, N1; lia|].
+          destruct (B _ Hin) as [Hr|Ho]; [left; lia|right; exact Ho].
+      + set (h1 := {| h_next := S (nxt h); h_get := fun j => if j =? nxt h then fresh v else get h j |}) in Hmk.
+        cbn [Evaluators.job] in Hmk.
+        assert (G1 : get h1 (nxt h) = fresh v) by (unfold h1; cbn; rewrite Nat.eqb_refl; reflexivity).
+        rewrite G1 in Hmk. cbn [d_vec Evaluators.fresh] in Hmk.
+        set (h2 := hupd h1 (nxt h) (set_eval T (fresh v) (f v) (map SV (sgn (f v)) ++ [SB (infeas v)]))) in Hmk.
+        destruct (mkb (h2, log ++ [v]) created items) as [[hl2 ids2] nw2] eqn:E. inversion Hmk; subst. clear Hmk.
+        destruct (IH _ _ _ _ _ _ _ E) as (N & O & W & V & C & L & SUB & PR & D).
+        assert (N2 : nxt h2 = S (nxt h)) by reflexivity.
+        assert (Gid : get h' (nxt h) = evald (fresh v)).
+        { rewrite O by (rewrite N2; lia). unfold h2. rewrite get_hupd_same. reflexivity. }
+        cbn [new_vecs length pre_vecs olds]. split; [rewrite N, N2; lia|]. split.
+        { intros j Hj. rewrite O by (rewrite N2; lia). unfold h2. rewrite get_hupd_other by lia. unfold h1. cbn.
+          assert (Hne : j <> nxt h) by lia. apply Nat.eqb_neq in Hne. rewrite Hne. reflexivity. }
+        split; [rewrite W, N2; reflexivity|]. split; [constructor; [rewrite Gid; reflexivity|exact V]|].
+        split.
+        { constructor.
+          - cbn. split; [exact Gid|]. rewrite N, N2. lia.
+          - apply (Forall2_impl (item_cell h2 h' created)); [|exact C].
+            intros it id _ Hc. destruct it as [w|w|k']; cbn [item_cell] in *; [| |exact Hc].
+            + destruct Hc as [A B]. split; [exact A|lia].
+            + destruct Hc as [A B]. split; [exact A|lia]. }
+        split; [rewrite L, <- app_assoc; reflexivity|]. split.
+        { intros x [Ex|Hx]; [left; exact Ex|right; apply SUB; exact Hx]. }
+        split.
+        { constructor.
+          - intros w [Ew|Ew]; inversion Ew; subst; left; reflexivity.
+          - revert PR. apply Forall2_impl. intros it id _ Hp w Hw. right. apply Hp. exact Hw. }
+        intros Hcr Hlt Hnd Hk.
+        assert (Hlt1 : forall c, In c created -> c < nxt h2) by (intros c Hc; apply Hlt in Hc; lia).
+        destruct (D Hcr Hlt1 Hnd Hk) as [A B]. split.
+        * constructor; [|exact A]. intro Hin. destruct (B _ Hin) as [Hr|(k & Hkin & Ek)]; [lia|].
+          rewrite Forall_forall in Hk. specialize (Hk k Hkin).
+          assert (nxt h < nxt h) by (rewrite Ek at 1; apply Hlt; apply nth_In; exact Hk). lia.
+        * intros x [Ex|Hin]; [subst; left; rewrite N, N2; lia|].
+          destruct (B _ Hin) as [Hr|Ho]; [left; lia|right; exact Ho].
+      + destruct (mkb (h, log) created items) as [[hl2 ids2] nw2] eqn:E. inversion Hmk; subst. clear Hmk.
+        destruct (IH _ _ _ _ _ _ _ E) as (N & O & W & V & C & L & SUB & PR & D).
+        cbn [new_vecs pre_vecs olds].
+        split; [exact N|]. split; [exact O|]. split; [exact W|]. split; [exact V|].
+        split; [constructor; [reflexivity|exact C]|]. split; [exact L|].
+        split; [intros x Hx; right; apply SUB; exact Hx|].
+        split; [constructor; [intros w [Ew|Ew]; discriminate Ew|exact PR]|].
+        intros Hcr Hlt Hnd Hk.
+        inversion Hnd as [|x l Hnotin Hnd']; subst. inversion Hk as [|x l Hk1 Hk']; subst.
+        destruct (D Hcr Hlt Hnd' Hk') as [A B]. split.
+        * constructor; [|exact A]. intro Hin. destruct (B _ Hin) as [Hr|(k' & Hkin & Ek)].
+          -- assert (nth k created 0 < nxt h) by (apply Hlt; apply nth_In; exact Hk1). lia.
+          -- rewrite Forall_forall in Hk'. specialize (Hk' k' Hkin).
+             apply (proj1 (NoDup_nth created 0) Hcr) in Ek; [|assumption|assumption]. subst. exact (Hnotin Hkin).
+        * intros x [Ex|Hin].
+          -- right. exists k. split; [left; reflexivity|]. symmetry. exact Ex.
+          -- destruct (B _ Hin) as [Hr|(k' & Hkin & Ek)]; [left; exact Hr|right; exists k'; split; [right; exact Hkin|exact Ek]].
+  Qed.
+  (* ---- list facts for the history induction ---- *)
+  Lemma combine_app_eq {A B : Type} (a b : list A) (c d : list B) :
+    length a = length c -> combine (a ++ b) (c ++ d) = combine a c ++ combine b d.
+  Proof.
+    revert c. induction a as [|x a IH]; intros [|y c] Hl; cbn in *; try discriminate; [reflexivity|].
+    f_equal. apply IH. lia.
+  Qed.
+
+  Lemma in_combine_nth {A B : Type} (a : list A) (c : list B) da dc k :
+    k < length a -> length a = length c -> In (nth k a da, nth k c dc) (combine a c).
+  Proof.
+    revert c k. induction a as [|x a IH]; intros [|y c] k Hk Hl; cbn in *; try lia.
+    destruct k as [|k]; [left; reflexivity|]. right. apply IH; lia.
+  Qed.
+
+  Lemma in_olds k (items : list item) : In (Old k) items -> In k (olds T items).
+  Proof.
+    induction items as [|it items IH]; intros Hin; [destruct Hin|].
+    destruct Hin as [E|Hin]; [subst; left; reflexivity|].
+    destruct it; cbn; auto.
+  Qed.
+
+  Lemma Forall2_in_l {A B : Type} (R : A -> B -> Prop) l1 l2 a :
+    Forall2 R l1 l2 -> In a l1 -> exists b, In b l2 /\ R a b.
+  Proof.
+    induction 1 as [|x y l1 l2 Hxy H IH]; intros Hin; [destruct Hin|].
+    destruct Hin as [E|Hin]; [subst; exists y; split; [left; reflexivity|exact Hxy]|].
+    destruct (IH Hin) as (b & Hb & Hr). exists b. split; [right; exact Hb|exact Hr].
+  Qed.
+
+  Lemma Forall2_in_r {A B : Type} (R : A -> B -> Prop) l1 l2 b :
+    Forall2 R l1 l2 -> In b l2 -> exists a, In a l1 /\ R a b.
+  Proof.
+    induction 1 as [|x y l1 l2 Hxy H IH]; intros Hin; [destruct Hin|].
+    destruct Hin as [E|Hin]; [subst; exists x; split; [left; reflexivity|exact Hxy]|].
+    destruct (IH Hin) as (a & Ha & Hr). exists a. split; [right; exact Ha|exact Hr].
+  Qed.
+
+  Lemma Forall2_and {A B : Type} (R1 R2 : A -> B -> Prop) l1 l2 :
+    Forall2 R1 l1 l2 -> Forall2 R2 l1 l2 -> Forall2 (fun a b => R1 a b /\ R2 a b) l1 l2.
+  Proof. induction 1; intros H2; inversion H2; subst; constructor; auto. Qed.
+
+  Lemma Forall2_map_eq {A B C : Type} (g1 : A -> C) (g2 : B -> C) l1 l2 :
+    Forall2 (fun a b => g1 a = g2 b) l1 l2 -> map g1 l1 = map g2 l2.
+  Proof. induction 1; cbn; congruence. Qed.
+
+  Definition is_new (it : item) : bool := match it with New _ => true | _ => false end.
+  Definition item_info (cvecs : list (list T)) (it : item) : bool * list T := (is_new it, item_vec T cvecs it).
+
+  Section GenHist.
+    Variable cv : list T -> list (list T).
+    Variable FIN : list T -> list nat -> design.
+    Variable topform : list T -> design -> Prop.
+    Hypothesis H_vec : forall v d, topform v d -> vec d = v.
+    Hypothesis H_clo : forall v l, topform v (FIN v l).
+    Hypothesis H_fresh : forall v, topform v (fresh v).
+    Hypothesis H_pre : forall v, topform v (evald (fresh v)).
+    Hypothesis H_par : forall v l, d_parents T (FIN v l) = [].
+    Hypothesis H_emp : forall v l, is_empty (FIN v l) = false.
+
+    Variable ev : st -> list nat -> option st.
+    Variable L : list (bool * list T) -> list (list T).      (* objective calls of one evaluate() *)
+    Variable ok : nat -> Prop.
+    Hypothesis ev_spec : forall (s : st) ids, ok (length ids) ->
+      s_inds T s = [] -> s_todo T s = [] -> NoDup ids -> (forall id, In id ids -> id < nxt (s_heap T s)) ->
+      (forall id, In id ids -> topform (vec (get (s_heap T s) id)) (get (s_heap T s) id)) ->
+      exists s', ev s ids = Some s' /\
+        s_inds T s' = [] /\ s_todo T s' = [] /\ nxt (s_heap T s) <= nxt (s_heap T s') /\
+        (forall j, j < nxt (s_heap T s) -> ~ In j ids -> get (s_heap T s') j = get (s_heap T s) j) /\
+        (forall id, In id ids -> gdone cv FIN (s_heap T s') id (vec (get (s_heap T s) id))) /\
+        s_log T s' = s_log T s ++ L (map (fun id => (is_empty (get (s_heap T s) id), vec (get (s_heap T s) id))) ids) /\
+        s_proc T s' = s_proc T s ++ [ids].
+
+    Fixpoint gen_hist (s : st) (created : list nat) (bs : list (list item)) : option (st * list (list nat)) :=
+      match bs with
+      | [] => Some (s, [])
+      | b :: bs' =>
+          let '(hl, ids, nw) := mkb (s_heap T s, s_log T s) created b in
+          match ev (with_hl T s hl) ids with
+          | None => None
+          | Some s1 => match gen_hist s1 (created ++ nw) bs' with
+                       | None => None
+                       | Some (s2, idss) => Some (s2, ids :: idss)
+                       end
+          end
+      end.
+
+    Fixpoint hist_log (cvecs : list (list T)) (bs : list (list item)) : list (list T) :=
+      match bs with
+      | [] => []
+      | b :: bs' => (pre_vecs b ++ L (map (item_info cvecs) b)) ++ hist_log (cvecs ++ new_vecs T b) bs'
+      end.
+
+    Definition Inv (s : st) (created : list nat) (cvecs : list (list T)) : Prop :=
+      s_inds T s = [] /\ s_todo T s = [] /\ NoDup created /\ length created = length cvecs /\
+      (forall c, In c created -> c < nxt (s_heap T s)) /\
+      forall id v, In (id, v) (combine created cvecs) -> gdone cv FIN (s_heap T s) id v.
+
+    Lemma vec_FIN v l : vec (FIN v l) = v.
+    Proof. apply H_vec. apply H_clo. Qed.
+
+    Lemma gen_hist_spec : forall bs s created cvecs,
+      Inv s created cvecs -> wf_hist T (length created) bs -> Forall (fun b => ok (length b)) bs ->
+      exists s' idss created' cvecs',
+        gen_hist s created bs = Some (s', idss) /\ Inv s' created' cvecs' /\
+        (forall p, In p (combine created cvecs) -> In p (combine created' cvecs')) /\
+        Forall2 (Forall2 (fun id v => In (id, v) (combine created' cvecs'))) idss (hist_vecs T cvecs bs) /\
+        s_proc T s' = s_proc T s ++ idss /\ s_log T s' = s_log T s ++ hist_log cvecs bs.
+    Proof.
+      induction bs as [|b bs IH]; intros s created cvecs HI Hwf Hok.
+      - exists s, [], created, cvecs. cbn. rewrite !app_nil_r.
+        split; [reflexivity|]. split; [exact HI|]. split; [auto|]. split; [constructor|]. split; reflexivity.
+      - destruct HI as (Hi & Ht & Hcr & Hlen & Hlt & Hdone).
+        cbn [wf_hist] in Hwf. destruct Hwf as (Wnd & Wk & Wrest).
+        inversion Hok as [|x l Hokb Hokrest]; subst.
+        cbn [gen_hist].
+        destruct (mkb (s_heap T s, s_log T s) created b) as [[[h1 log1] ids] nw] eqn:Emk.
+        destruct (mk_batch_spec _ _ _ _ _ _ _ _ Emk) as (N & O & W & V & C & LG & SUB & PR & D).
+        destruct (D Hcr Hlt Wnd Wk) as [Hnd Hloc].
+        set (h := s_heap T s) in *.
+        set (s1 := with_hl T s (h1, log1)).
+        assert (Hlenids : length ids = length b) by (symmetry; apply (Forall2_length _ _ _ C)).
+        (* facts about every cell of the batch, from its item *)
+        assert (Cell : forall it id, In it b -> item_cell h h1 created it id ->
+                   id < nxt h1 /\ topform (item_vec T cvecs it) (get h1 id) /\
+                   is_empty (get h1 id) = is_new it /\ In (id, item_vec T cvecs it) (combine (created ++ nw) (cvecs ++ new_vecs T b)) \/
+                   (exists v, it = New v \/ it = Pre v)).
+        { intros it id Hit Hc. destruct it as [v|v|k]; [right; exists v; left; reflexivity|right; exists v; right; reflexivity|].
+          left. cbn in Hc. subst id.
+          assert (Hk : k < length created).
+          { rewrite Forall_forall in Wk. apply Wk. apply in_olds. exact Hit. }
+          assert (Hin : In (nth k created 0) created) by (apply nth_In; exact Hk).
+          assert (Hp : In (nth k created 0, nth k cvecs []) (combine created cvecs)) by (apply in_combine_nth; assumption).
+          destruct (Hdone _ _ Hp) as (lo & D1 & D2 & D3).
+          assert (Hlt0 : nth k created 0 < nxt h) by (apply Hlt; exact Hin).
+          repeat split.
+          - lia.
+          - rewrite O by exact Hlt0. rewrite D2. cbn. apply H_clo.
+          - rewrite O by exact Hlt0. rewrite D2. apply H_emp.
+          - cbn. rewrite combine_app_eq by exact Hlen. apply in_or_app. left. exact Hp. }
+        assert (CellN : forall it id, In it b -> item_cell h h1 created it id ->
+                   (forall v, it = New v \/ it = Pre v -> In (id, v) (combine nw (new_vecs T b))) ->
+                   id < nxt h1 /\ topform (item_vec T cvecs it) (get h1 id) /\
+                   is_empty (get h1 id) = is_new it /\ In (id, item_vec T cvecs it) (combine (created ++ nw) (cvecs ++ new_vecs T b))).
+        { intros it id Hit Hc Hp. destruct (Cell it id Hit Hc) as [Hold|(v & Hv)]; [exact Hold|].
+          assert (Hpair : In (id, v) (combine (created ++ nw) (cvecs ++ new_vecs T b))).
+          { rewrite combine_app_eq by exact Hlen. apply in_or_app. right. apply Hp. exact Hv. }
+          destruct Hv as [E|E]; subst it; cbn in Hc; destruct Hc as [G1 B1]; cbn [item_vec is_new]; rewrite G1; repeat split.
+          - lia.
+          - apply H_fresh.
+          - exact Hpair.
+          - lia.
+          - apply H_pre.
+          - exact Hpair. }
+        assert (CP : Forall2 (fun it id => In it b /\ item_cell h h1 created it id /\
+                                (forall v, it = New v \/ it = Pre v -> In (id, v) (combine nw (new_vecs T b)))) b ids).
+        { assert (Hself : Forall2 (fun it (id : nat) => In it b) b ids).
+          { clear -C. assert (G : forall l, (forall x, In x l -> In x b) -> forall ids', Forall2 (item_cell h h1 created) l ids' ->
+                                            Forall2 (fun it (id : nat) => In it b) l ids').
+            { induction l as [|x l IHl]; intros Hsub ids' HF; inversion HF; subst; constructor.
+              - apply Hsub. left. reflexivity.
+              - apply IHl; [intros z Hz; apply Hsub; right; exact Hz|assumption]. }
+            apply (G b (fun x Hx => Hx) ids C). }
+          apply Forall2_and; [exact Hself|]. apply Forall2_and; assumption. }
+        assert (CF : Forall2 (fun it id => id < nxt h1 /\ topform (item_vec T cvecs it) (get h1 id) /\
+                        is_empty (get h1 id) = is_new it /\
+                        In (id, item_vec T cvecs it) (combine (created ++ nw) (cvecs ++ new_vecs T b))) b ids).
+        { revert CP. apply Forall2_impl. intros it id _ (A1 & A2 & A3). apply CellN; assumption. }
+        assert (Hvecs : forall it id, In (id : nat) ids -> topform (item_vec T cvecs it) (get h1 id) -> vec (get h1 id) = item_vec T cvecs it)
+          by (intros it id _ Htp; apply H_vec; exact Htp).
+        (* preconditions of the evaluator *)
+        assert (P1 : forall id, In id ids -> id < nxt (s_heap T s1)).
+        { intros id Hin. destruct (Forall2_in_r _ _ _ _ CF Hin) as (it & _ & A & _). exact A. }
+        assert (P2 : forall id, In id ids -> topform (vec (get (s_heap T s1) id)) (get (s_heap T s1) id)).
+        { intros id Hin. destruct (Forall2_in_r _ _ _ _ CF Hin) as (it & _ & _ & A & _).
+          unfold s1. cbn [s_heap with_hl fst]. rewrite (H_vec _ _ A). exact A. }
+        assert (Hok1 : ok (length ids)) by (rewrite Hlenids; exact Hokb).
+        destruct (ev_spec s1 ids Hok1 Hi Ht Hnd P1 P2) as (s2 & E2 & I2 & T2 & N2 & O2 & G2 & L2 & R2).
+        rewrite E2. unfold s1 in N2, O2, G2, L2, R2. cbn [s_heap with_hl fst snd s_log s_proc] in N2, O2, G2, L2, R2.
+        set (h2 := s_heap T s2) in *.
+        (* the invariant after the batch *)
+        assert (HI2 : Inv s2 (created ++ nw) (cvecs ++ new_vecs T b)).
+        { assert (Hnwlen : length nw = length (new_vecs T b)) by (rewrite W, seq_length; reflexivity).
+          unfold Inv. fold h2.
+          split; [exact I2|]. split; [exact T2|]. split.
+          { apply NoDup_app_intro; [exact Hcr|rewrite W; apply seq_NoDup|].
+            intros x Hx Hx2. rewrite W in Hx2. apply in_seq in Hx2. apply Hlt in Hx. lia. }
+          split; [rewrite !app_length; lia|]. split.
+          { intros c Hc. apply in_app_or in Hc. destruct Hc as [Hc|Hc].
+            - apply Hlt in Hc. lia.
+            - rewrite W in Hc. apply in_seq in Hc. lia. }
+          intros id v Hp. rewrite combine_app_eq in Hp by exact Hlen. apply in_app_or in Hp.
+          destruct (in_dec Nat.eq_dec id ids) as [Hin|Hnin].
+          - (* processed in this batch *)
+            assert (Ev : vec (get h1 id) = v).
+            { destruct Hp as [Hp|Hp].
+              - destruct (Hdone _ _ Hp) as (lo & D1 & D2 & D3).
+                assert (id < nxt h) by (apply Hlt; apply in_combine_l in Hp; exact Hp).
+                rewrite O by assumption. rewrite D2. apply vec_FIN.
+              - assert (Hv2 : Forall2 (fun id v => vec (get h1 id) = v) nw (new_vecs T b)) by exact V.
+                clear -Hp Hv2. induction Hv2 as [|x0 y0 l1 l2 Hxy0 Hv2 IHv]; [destruct Hp|].
+                destruct Hp as [E|Hp]; [inversion E; subst; first [reflexivity|assumption]|apply IHv; exact Hp]. }
+            rewrite <- Ev. apply G2. exact Hin.
+          - destruct Hp as [Hp|Hp].
+            + (* an older design that is not in this batch: untouched, and so are its children *)
+              destruct (Hdone _ _ Hp) as (lo & D1 & D2 & D3).
+              assert (Hidlt : id < nxt h) by (apply Hlt; apply in_combine_l in Hp; exact Hp).
+              exists lo. split; [lia|]. split.
+              * rewrite O2 by (try lia; exact Hnin). rewrite O by exact Hidlt. exact D2.
+              * intros k Hk. rewrite O2.
+                -- rewrite O by lia. apply D3. exact Hk.
+                -- lia.
+                -- intro Hin. destruct (Hloc _ Hin) as [Hr|(k' & Hk' & Ek)]; [lia|].
+                   rewrite Forall_forall in Wk. specialize (Wk k' Hk').
+                   assert (Hp' : In (nth k' created 0, nth k' cvecs []) (combine created cvecs)) by (apply in_combine_nth; assumption).
+                   destruct (Hdone _ _ Hp') as (lo' & D1' & D2' & D3').
+                   rewrite <- Ek in D2'. rewrite (D3 k Hk) in D2'.
+                   apply (f_equal (d_parents T)) in D2'. rewrite H_par in D2'. cbn in D2'. discriminate D2'.
+            + exfalso. apply Hnin. apply SUB. apply in_combine_l in Hp. exact Hp. }
+        assert (Wrest' : wf_hist T (length (created ++ nw)) bs).
+        { rewrite app_length, W, seq_length. exact Wrest. }
+        destruct (IH s2 (created ++ nw) (cvecs ++ new_vecs T b) HI2 Wrest' Hokrest)
+          as (s' & idss & created' & cvecs' & E3 & I3 & M3 & F3 & R3 & L3).
+        rewrite E3. exists s', (ids :: idss), created', cvecs'. split; [reflexivity|]. split; [exact I3|]. split.
+        { intros p Hp. apply M3. rewrite combine_app_eq by exact Hlen. apply in_or_app. left. exact Hp. }
+        split.
+        { cbn [hist_vecs]. constructor; [|exact F3].
+          assert (Q : Forall2 (fun it id => In (id, item_vec T cvecs it) (combine created' cvecs')) b ids).
+          { revert CF. apply Forall2_impl. intros it id _ (_ & _ & _ & A). apply M3. exact A. }
+          clear -Q. induction Q; cbn; constructor; assumption. }
+        split; [rewrite R3, R2, <- app_assoc; reflexivity|].
+        rewrite L3, L2, LG. cbn [hist_log]. rewrite <- !app_assoc. do 2 f_equal.
+        apply (f_equal (fun x => L x ++ hist_log (cvecs ++ new_vecs T b) bs)). symmetry.
+        apply Forall2_map_eq.
+        revert CF. apply Forall2_impl. intros it id _ (_ & A & B & _). unfold item_info. rewrite B, (H_vec _ _ A). reflexivity.
+    Qed.
+  End GenHist.
+  (* ---- the two evaluators as instances ---- *)
+  Lemma set_last_snoc {A : Type} (x y : A) l : set_last x (l ++ [y]) = l ++ [x].
+  Proof.
+    induction l as [|z l IH]; [reflexivity|]. destruct l as [|w l]; [reflexivity|].
+    change (set_last x ((z :: w :: l) ++ [y])) with (z :: set_last x ((w :: l) ++ [y])). rewrite IH. reflexivity.
+  Qed.
+  Lemma set_m2_snoc2 {A : Type} (x y z : A) l : set_m2 x (l ++ [y; z]) = l ++ [x; z].
+  Proof.
+    induction l as [|w l IH]; [reflexivity|]. cbn [app]. destruct l as [|w2 l]; [reflexivity|].
+    cbn [app] in *. destruct (l ++ [y; z]) as [|a t] eqn:E; [destruct l; discriminate|].
+    change (set_m2 x (w :: w2 :: a :: t)) with (w :: set_m2 x (w2 :: a :: t)). rewrite IH. reflexivity.
+  Qed.
+
+  Lemma set_children_twice d l : set_children T d l = set_children T (set_children T d []) l.
+  Proof. reflexivity. Qed.
+
+  Lemma filter_info_vecs (h : heap) ids :
+    map snd (filter fst (map (fun id => (is_empty (get h id), vec (get h id))) ids)) =
+    map (fun j => vec (get h j)) (filter (fun j => is_empty (get h j)) ids).
+  Proof.
+    induction ids as [|id ids IH]; [reflexivity|]. cbn [map filter fst].
+    destruct (is_empty (get h id)); cbn [map snd]; rewrite IH; reflexivity.
+  Qed.
+
+  Definition FINw (v : list T) (l : list nat) : design :=
+    {| d_vec := v; d_costs := f v ++ [wc_S v];
+       d_signed := map SV (sgn (f v)) ++ [SV (wc_S v); SB (infeas v)];
+       d_state := EVALUATED; d_parents := []; d_children := l; d_sens := Some (wc_S v); d_grad := None |}.
+  Definition topform_w (v : list T) (d : design) : Prop :=
+    set_children T d [] = fresh v \/ set_children T d [] = evald (fresh v) \/ set_children T d [] = FINw v [].
+
+  Definition g_grad (v : list T) : list T := map (fun w => div (sub (c0 (f w)) (c0 (f v))) delta) (gcv v).
+  Definition FINg (v : list T) (l : list nat) : design :=
+    {| d_vec := v; d_costs := f v; d_signed := map SV (sgn (f v)) ++ [SB (infeas v)];
+       d_state := EVALUATED; d_parents := []; d_children := l; d_sens := None; d_grad := Some (g_grad v) |}.
+  Definition topform_g (v : list T) (d : design) : Prop :=
+    set_children T d [] = fresh v \/ set_children T d [] = evald (fresh v) \/ set_children T d [] = FINg v [].
+
+  (* objective calls of one evaluate(), from (is the design still EMPTY, its vector) per submitted design *)
+  Definition L_wc (infos : list (bool * list T)) : list (list T) :=
+    map snd (filter fst infos) ++ flat_map (fun p : bool * list T => wcv (snd p)) infos.
+  Definition L_g (infos : list (bool * list T)) : list (list T) :=
+    flat_map (fun p : bool * list T => (if fst p then [snd p] else []) ++ gcv (snd p)) infos.
+
+  Lemma topform_w_vec v d : topform_w v d -> vec d = v.
+  Proof. intros [E|[E|E]]; apply (f_equal vec) in E; exact E. Qed.
+  Lemma topform_g_vec v d : topform_g v d -> vec d = v.
+  Proof. intros [E|[E|E]]; apply (f_equal vec) in E; exact E. Qed.
+
+  Lemma g_fin_top v d l : topform_g v d ->
+    g_fin (set_children T (if is_empty d then evald d else d) l) (map (fun w => c0 (f w)) (gcv v)) = FINg v l.
+  Proof.
+    intros Ht. rewrite <- (is_empty_set_children d []).
+    assert (E1 : set_children T (evald d) l = set_children T (evald (set_children T d [])) l) by reflexivity.
+    assert (E2 : set_children T d l = set_children T (set_children T d []) l) by reflexivity.
+    destruct Ht as [E|[E|E]]; rewrite E; cbn [is_empty d_state Evaluators.fresh evald set_eval FINg].
+    - rewrite E1, E. unfold g_fin, FINg, g_grad. cbn. rewrite map_map. reflexivity.
+    - rewrite E2, E. unfold g_fin, FINg, g_grad. cbn. rewrite map_map. reflexivity.
+    - rewrite E2, E. unfold g_fin, FINg, g_grad. cbn. rewrite map_map. reflexivity.
+  Qed.
+
+  Section WCInst.
+    Hypothesis Hf : forall v, length (f v) = m.
+    Hypothesis Hm : 1 <= m.
+
+    Lemma c0_snoc v x : c0 (f v ++ [x]) = c0 (f v).
+    Proof. unfold Evaluators.c0. specialize (Hf v). destruct (f v); [cbn in Hf; lia|reflexivity]. Qed.
+
+    Lemma wc_fin_top v d l : topform_w v d ->
+      wc_fin (set_children T (if is_empty d then evald d else d) l) (map (fun w => c0 (f w)) (wcv v)) = FINw v l.
+    Proof.
+      intros Ht. rewrite <- (is_empty_set_children d []).
+      assert (E1 : set_children T (evald d) l = set_children T (evald (set_children T d [])) l) by reflexivity.
+      assert (E2 : set_children T d l = set_children T (set_children T d []) l) by reflexivity.
+      destruct Ht as [E|[E|E]]; rewrite E; cbn [is_empty d_state Evaluators.fresh evald set_eval FINw].
+      - rewrite E1, E. apply wc_fin_fresh. apply Hf.
+      - rewrite E2, E. apply (wc_fin_fresh v l (Hf v)).
+      - rewrite E2, E. unfold wc_fin, FINw. cbn [d_costs set_children d_signed].
+        rewrite app_length, Hf. cbn [length].
+        assert (Eg : S m <=? m + 1 = true) by (apply Nat.leb_le; lia). rewrite Eg.
+        rewrite map_map, c0_snoc. fold (wc_S v). rewrite set_last_snoc.
+        rewrite (set_m2_snoc2 (SV (wc_S v)) (SV (wc_S v)) (SB (infeas v))). reflexivity.
+    Qed.
+    Lemma topform_w_after_eval v d : topform_w v d -> topform_w v (if is_empty d then evald d else d).
+    Proof.
+      intros Ht. destruct (is_empty d) eqn:Em; [|exact Ht].
+      rewrite <- (is_empty_set_children d []) in Em.
+      destruct Ht as [E|[E|E]]; rewrite E in Em; try discriminate Em.
+      right. left. change (set_children T (evald d) []) with (evald (set_children T d [])). rewrite E. reflexivity.
+    Qed.
+
+    Lemma wc_ev_spec (s : st) ids : True ->
+      s_inds T s = [] -> s_todo T s = [] -> NoDup ids -> (forall id, In id ids -> id < nxt (s_heap T s)) ->
+      (forall id, In id ids -> topform_w (vec (get (s_heap T s) id)) (get (s_heap T s) id)) ->
+      exists s', Some (wc_eval s ids) = Some s' /\
+        s_inds T s' = [] /\ s_todo T s' = [] /\ nxt (s_heap T s) <= nxt (s_heap T s') /\
+        (forall j, j < nxt (s_heap T s) -> ~ In j ids -> get (s_heap T s') j = get (s_heap T s) j) /\
+        (forall id, In id ids -> gdone wcv FINw (s_heap T s') id (vec (get (s_heap T s) id))) /\
+        s_log T s' = s_log T s ++ L_wc (map (fun id => (is_empty (get (s_heap T s) id), vec (get (s_heap T s) id))) ids) /\
+        s_proc T s' = s_proc T s ++ [ids].
+    Proof.
+      intros _ Hi Ht Hnd Hlt Htop. eexists. split; [reflexivity|].
+      set (h := s_heap T s) in *.
+      unfold wc_evaluate. fold h.
+      destruct (evs (h, s_log T s) ids) as [hA logA] eqn:EA.
+      destruct (eval_serial_spec _ _ _ Hnd _ _ EA) as (NA & AA & AB & AC & AL).
+      rewrite Hi, Ht.
+      set (sA := {| s_heap := hA; s_inds := []; s_todo := []; s_log := logA; s_proc := s_proc T s |}).
+      change (fold_left (wc_add T add mul zero one mone tols) ids sA) with (fold_left (gen_add wcv) ids sA).
+      assert (GA : forall id, In id ids -> get hA id = (if is_empty (get h id) then evald (get h id) else get h id)).
+      { intros id Hin. destruct (is_empty (get h id)) eqn:Em; [apply AA|apply AB]; assumption. }
+      assert (VA : forall id, In id ids -> vec (get hA id) = vec (get h id)).
+      { intros id Hin. rewrite (GA id Hin). destruct (is_empty (get h id)); reflexivity. }
+      assert (EmA : forall id, In id ids -> is_empty (get hA id) = false).
+      { intros id Hin. rewrite (GA id Hin). destruct (is_empty (get h id)) eqn:Em; [reflexivity|exact Em]. }
+      assert (Hlt' : forall id, In id ids -> id < nxt (s_heap T sA)) by (intros id Hin; cbn; rewrite NA; apply Hlt; exact Hin).
+      assert (Htop' : forall id, In id ids -> topform_w (vec (get (s_heap T sA) id)) (get (s_heap T sA) id)).
+      { intros id Hin. cbn [s_heap sA]. rewrite (VA id Hin), (GA id Hin). apply topform_w_after_eval. apply Htop. exact Hin. }
+      unfold wc_run.
+      set (sB := fold_left (gen_add wcv) ids sA).
+      destruct (evs (s_heap T sB, s_log T sB) (s_todo T sB)) as [hC logC] eqn:EC.
+      pose proof (grun_spec wcv wc_fin FINw topform_w wc_fin_top sA ids eq_refl eq_refl Hnd Hlt' Htop' hC logC EC) as R.
+      cbn zeta in R. fold sB in R. destruct R as (RI & RN & RO & RD & RL & RP).
+      rewrite (fold_left_ext _ (fun h id => hupd h id (wc_fin (get h id) (kid_c0 h (get h id)))))
+        by (intros; apply wc_post_fin).
+      cbn [s_heap s_inds s_todo s_log s_proc]. cbn [s_heap sA] in RN, RO, RD.
+      split; [reflexivity|]. split; [reflexivity|]. split; [lia|]. split.
+      { intros j Hj Hnin. rewrite RO by (try lia; exact Hnin). apply AC. exact Hnin. }
+      split.
+      { intros id Hin. destruct (RD id Hin) as (lo & R1 & R2 & R3 & R4). rewrite (VA id Hin) in *.
+        exists lo. repeat split; assumption. }
+      split.
+      { rewrite RL. unfold sA. cbn [s_log s_heap]. rewrite AL. unfold L_wc. rewrite <- app_assoc. f_equal.
+        rewrite filter_info_vecs. f_equal.
+        rewrite flat_map_map. apply flat_map_ext_in. intros id Hin. cbn [snd].
+        rewrite (EmA id Hin), (VA id Hin). reflexivity. }
+      rewrite RP, RI. reflexivity.
+    Qed.
+  End WCInst.
+  Lemma g_ev_spec (s : st) ids : length ids <> 0 ->
+    s_inds T s = [] -> s_todo T s = [] -> NoDup ids -> (forall id, In id ids -> id < nxt (s_heap T s)) ->
+    (forall id, In id ids -> topform_g (vec (get (s_heap T s) id)) (get (s_heap T s) id)) ->
+    exists s', g_eval s ids = Some s' /\
+      s_inds T s' = [] /\ s_todo T s' = [] /\ nxt (s_heap T s) <= nxt (s_heap T s') /\
+      (forall j, j < nxt (s_heap T s) -> ~ In j ids -> get (s_heap T s') j = get (s_heap T s) j) /\
+      (forall id, In id ids -> gdone gcv FINg (s_heap T s') id (vec (get (s_heap T s) id))) /\
+      s_log T s' = s_log T s ++ L_g (map (fun id => (is_empty (get (s_heap T s) id), vec (get (s_heap T s) id))) ids) /\
+      s_proc T s' = s_proc T s ++ [ids].
+  Proof.
+    intros Hne Hi Ht Hnd Hlt Htop.
+    unfold g_evaluate.
+    change (fold_left (g_add T add zero delta) ids s) with (fold_left (gen_add gcv) ids s).
+    set (sB := fold_left (gen_add gcv) ids s).
+    destruct (evs (s_heap T sB, s_log T sB) (s_todo T sB)) as [hC logC] eqn:EC.
+    pose proof (grun_spec gcv g_fin FINg topform_g g_fin_top s ids Hi Ht Hnd Hlt Htop hC logC EC) as R.
+    cbn zeta in R. fold sB in R. destruct R as (RI & RN & RO & RD & RL & RP).
+    unfold g_run. rewrite EC.
+    destruct (s_inds T sB) as [|i0 irest] eqn:EI.
+    - exfalso. apply Hne. rewrite <- RI. reflexivity.
+    - eexists. split; [reflexivity|].
+      rewrite (fold_left_ext _ (fun h id => hupd h id (g_fin (get h id) (kid_c0 h (get h id)))))
+        by (intros; apply g_post_fin).
+      cbn [s_heap s_inds s_todo s_log s_proc].
+      split; [reflexivity|]. split; [reflexivity|]. split; [exact RN|]. split; [exact RO|]. split.
+      { intros id Hin. destruct (RD id Hin) as (lo & R1 & R2 & R3 & R4). exists lo. repeat split; assumption. }
+      split.
+      { rewrite RL. f_equal. unfold L_g. rewrite flat_map_map. reflexivity. }
+      rewrite RP, RI. reflexivity.
+  Qed.
+
+  (* the model's history functions are the generic one *)
+  Lemma wc_hist_gen : forall bs s created,
+    gen_hist (fun s ids => Some (wc_eval s ids)) s created bs =
+    Some (wc_hist T add sub mul abs zero one mone psum m tols f sgn infeas s created bs).
+  Proof.
+    induction bs as [|b bs IH]; intros s created; [reflexivity|].
+    cbn [gen_hist wc_hist]. destruct (mkb (s_heap T s, s_log T s) created b) as [[hl ids] nw].
+    rewrite IH. destruct (wc_hist T add sub mul abs zero one mone psum m tols f sgn infeas
+                                  (wc_eval (with_hl T s hl) ids) (created ++ nw) bs). reflexivity.
+  Qed.
+
+  Lemma g_hist_gen : forall bs s created,
+    gen_hist g_eval s created bs = g_hist T add sub div zero delta f sgn infeas s created bs.
+  Proof.
+    induction bs as [|b bs IH]; intros s created; [reflexivity|].
+    cbn [gen_hist g_hist]. destruct (mkb (s_heap T s, s_log T s) created b) as [[hl ids] nw].
+    destruct (g_eval (with_hl T s hl) ids); [|reflexivity]. rewrite IH. reflexivity.
+  Qed.
+
+  Lemma Inv_init cv FIN : Inv cv FIN init [] [].
+  Proof. unfold Inv. cbn. repeat split; auto; try constructor; intros; contradiction. Qed.
+
+  (* what a processed design looks like, whatever was submitted before or after *)
+  Definition wc_shape (h : heap) (id : nat) (v : list T) : Prop :=
+    let d := get h id in
+    vec d = v /\ d_parents T d = [] /\
+    d_costs T d = f v ++ [wc_S v] /\ length (d_costs T d) = m + 1 /\
+    wc_S v = psum (map (fun c => abs (sub (c0 (d_costs T d)) (c0 (d_costs T (get h c))))) (kids d)) /\
+    d_sens T d = Some (wc_S v) /\
+    d_signed T d = map SV (sgn (f v)) ++ [SV (wc_S v); SB (infeas v)] /\
+    length (d_signed T d) = length (sgn (f v)) + 2 /\
+    d_state T d = EVALUATED /\
+    NoDup (kids d) /\ length (kids d) = 2 * length v /\
+    map (fun c => vec (get h c)) (kids d) = wcv v /\
+    Forall (fun c => d_parents T (get h c) = [id] /\ d_costs T (get h c) = f (vec (get h c)) /\
+                     d_state T (get h c) = EVALUATED /\ d_sens T (get h c) = None /\ c <> id) (kids d).
+
+  Definition g_shape (h : heap) (id : nat) (v : list T) : Prop :=
+    let d := get h id in
+    vec d = v /\ d_parents T d = [] /\ d_costs T d = f v /\ d_state T d = EVALUATED /\
+    d_grad T d = Some (map (fun i => div (sub (c0 (f (set_nth T i (add (nth i v zero) delta) v))) (c0 (f v))) delta)
+                           (seq 0 (length v))) /\
+    d_grad T d = Some (map (fun c => div (sub (c0 (d_costs T (get h c))) (c0 (d_costs T d))) delta) (kids d)) /\
+    NoDup (kids d) /\ length (kids d) = length v /\
+    map (fun c => vec (get h c)) (kids d) = gcv v /\
+    Forall (fun c => d_parents T (get h c) = [id] /\ d_costs T (get h c) = f (vec (get h c)) /\
+                     d_state T (get h c) = EVALUATED /\ c <> id) (kids d).
+
+  Lemma gdone_wc_shape h id v : (forall v, length (f v) = m) -> 1 <= m -> gdone wcv FINw h id v -> wc_shape h id v.
+  Proof.
+    intros Hf Hm (lo & L2 & L3 & L4). unfold wc_shape. cbn zeta. rewrite L3.
+    cbn [d_vec d_parents d_costs d_sens d_signed d_state d_children FINw].
+    split; [reflexivity|]. split; [reflexivity|]. split; [reflexivity|].
+    split; [rewrite app_length, Hf; reflexivity|]. split.
+    { rewrite (c0_snoc Hf Hm). unfold wc_S. apply (f_equal psum). symmetry.
+      apply map_seq_nth_gen with (d := []). intros k Hk. rewrite (L4 k Hk). reflexivity. }
+    split; [reflexivity|]. split; [reflexivity|].
+    split; [rewrite app_length, map_length; cbn; lia|]. split; [reflexivity|].
+    split; [apply seq_NoDup|]. split; [rewrite seq_length; apply wcv_length|]. split.
+    { apply map_seq_nth with (d := []). intros k Hk. rewrite (L4 k Hk). reflexivity. }
+    apply Forall_forall. intros c Hc. apply in_seq in Hc.
+    replace c with (lo + (c - lo)) by lia. rewrite L4 by lia. cbn. repeat split.
+    intro E. assert (Hk : c - lo < length (wcv v)) by lia. pose proof (L4 _ Hk) as G1.
+    rewrite E, L3 in G1. apply (f_equal (d_parents T)) in G1. cbn in G1. discriminate G1.
+  Qed.
+
+  Lemma gdone_g_shape h id v : gdone gcv FINg h id v -> g_shape h id v.
+  Proof.
+    intros (lo & L2 & L3 & L4). unfold g_shape. cbn zeta. rewrite L3.
+    cbn [d_vec d_parents d_costs d_grad d_state d_children FINg].
+    split; [reflexivity|]. split; [reflexivity|]. split; [reflexivity|]. split; [reflexivity|]. split.
+    { f_equal. unfold g_grad, g_child_vecs. rewrite map_map. reflexivity. }
+    split.
+    { f_equal. unfold g_grad. symmetry.
+      apply map_seq_nth_gen with (d := []). intros k Hk. rewrite (L4 k Hk). reflexivity. }
+    split; [apply seq_NoDup|]. split; [rewrite seq_length; apply gcv_length|]. split.
+    { apply map_seq_nth with (d := []). intros k Hk. rewrite (L4 k Hk). reflexivity. }
+    apply Forall_forall. intros c Hc. apply in_seq in Hc.
+    replace c with (lo + (c - lo)) by lia. rewrite L4 by lia. cbn. repeat split.
+    intro E. assert (Hk : c - lo < length (gcv v)) by lia. pose proof (L4 _ Hk) as G1.
+    rewrite E, L3 in G1. apply (f_equal (d_parents T)) in G1. cbn in G1. discriminate G1.
+  Qed.
+
+  (* C14 worstcase_cost_shape, for histories with resubmitted and pre-evaluated designs *)
+  Theorem wc_hist_thm : (forall v, length (f v) = m) -> 1 <= m ->
+    forall bs, wf_hist T 0 bs ->
+    forall s idss, wc_hist T add sub mul abs zero one mone psum m tols f sgn infeas init [] bs = (s, idss) ->
+    s_inds T s = [] /\ s_todo T s = [] /\ s_proc T s = idss /\
+    s_log T s = hist_log L_wc [] bs /\
+    Forall2 (Forall2 (wc_shape (heap_of s))) idss (hist_vecs T [] bs).
+  Proof.
+    intros Hf Hm bs Hwf s idss Hrun.
+    assert (Hok : Forall (fun b : list item => True) bs) by (apply Forall_forall; intros; exact I).
+    destruct (gen_hist_spec wcv FINw topform_w topform_w_vec
+                (fun v l => or_intror (or_intror eq_refl)) (fun v => or_introl eq_refl) (fun v => or_intror (or_introl eq_refl))
+                (fun v l => eq_refl) (fun v l => eq_refl)
+                (fun s ids => Some (wc_eval s ids)) L_wc (fun _ => True) (wc_ev_spec Hf Hm)
+                bs init [] [] (Inv_init wcv FINw) Hwf Hok)
+      as (s' & idss' & created' & cvecs' & E & I' & _ & F & P & L).
+    rewrite wc_hist_gen, Hrun in E. inversion E; subst s' idss'. clear E.
+    destruct I' as (I1 & I2 & _ & _ & _ & I6).
+    split; [exact I1|]. split; [exact I2|]. split; [exact P|]. split; [exact L|].
+    revert F. apply Forall2_impl. intros ids vs _. apply Forall2_impl. intros id v _ Hp.
+    apply gdone_wc_shape; [exact Hf|exact Hm|]. apply I6. exact Hp.
+  Qed.
+
+  Theorem g_hist_thm : forall bs, wf_hist T 0 bs -> Forall (fun b => b <> []) bs ->
+    exists s idss, g_hist T add sub div zero delta f sgn infeas init [] bs = Some (s, idss) /\
+    s_inds T s = [] /\ s_todo T s = [] /\ s_proc T s = idss /\
+    s_log T s = hist_log L_g [] bs /\
+    Forall2 (Forall2 (g_shape (heap_of s))) idss (hist_vecs T [] bs).
+  Proof.
+    intros bs Hwf Hne.
+    assert (Hok : Forall (fun b : list item => length b <> 0) bs).
+    { revert Hne. apply Forall_impl. intros b Hb E. apply Hb. destruct b; [reflexivity|discriminate]. }
+    destruct (gen_hist_spec gcv FINg topform_g topform_g_vec
+                (fun v l => or_intror (or_intror eq_refl)) (fun v => or_introl eq_refl) (fun v => or_intror (or_introl eq_refl))
+                (fun v l => eq_refl) (fun v l => eq_refl)
+                g_eval L_g (fun n => n <> 0) g_ev_spec
+                bs init [] [] (Inv_init gcv FINg) Hwf Hok)
+      as (s' & idss' & created' & cvecs' & E & I' & _ & F & P & L).
+    rewrite g_hist_gen in E. exists s', idss'. split; [exact E|].
+    destruct I' as (I1 & I2 & _ & _ & _ & I6).
+    split; [exact I1|]. split; [exact I2|]. split; [exact P|]. split; [exact L|].
+    revert F. apply Forall2_impl. intros ids vs _. apply Forall2_impl. intros id v _ Hp.
+    apply gdone_g_shape. apply I6. exact Hp.
+  Qed.
+  (* ---- the call budget under resubmission: one call per created design (where it is created or first
+          evaluated), plus 2n (worst case) resp. n (gradient) calls for every submission ---- *)
+  Lemma new_count (b : list item) cvecs :
+    length (pre_vecs b) + length (filter fst (map (item_info cvecs) b)) = length (new_vecs T b).
+  Proof. induction b as [|it b IH]; [reflexivity|]. destruct it; cbn in *; lia. Qed.
+
+  Lemma wc_hist_log_length n : forall bs cvecs,
+    Forall (Forall (fun v => length v = n)) (hist_vecs T cvecs bs) ->
+    length (hist_log L_wc cvecs bs) = length (flat_map (new_vecs T) bs) + 2 * n * length (concat bs).
+  Proof.
+    induction bs as [|b bs IH]; intros cvecs Hn; [cbn; lia|].
+    cbn [hist_vecs] in Hn. inversion Hn as [|x l Hb Hrest]; subst.
+    cbn [hist_log flat_map concat]. rewrite !app_length, (IH _ Hrest). unfold L_wc.
+    rewrite app_length, map_length.
+    rewrite (flat_map_length_const (fun p : bool * list T => wcv (snd p)) (2 * n)).
+    - rewrite map_length. pose proof (new_count b cvecs). lia.
+    - intros p Hp. apply in_map_iff in Hp. destruct Hp as (it & E & Hit). subst p. cbn [snd item_info].
+      rewrite wcv_length. rewrite Forall_forall in Hb. rewrite (Hb (item_vec T cvecs it)); [reflexivity|].
+      apply in_map. exact Hit.
+  Qed.
+
+  Lemma L_g_length n infos : Forall (fun p : bool * list T => length (snd p) = n) infos ->
+    length (L_g infos) = length (filter fst infos) + n * length infos.
+  Proof.
+    induction 1 as [|p infos Hp H IH]; [cbn; lia|].
+    unfold L_g in *. cbn [flat_map filter length]. rewrite !app_length, IH, gcv_length, Hp.
+    destruct (fst p); cbn [length]; lia.
+  Qed.
+
+  Lemma g_hist_log_length n : forall bs cvecs,
+    Forall (Forall (fun v => length v = n)) (hist_vecs T cvecs bs) ->
+    length (hist_log L_g cvecs bs) = length (flat_map (new_vecs T) bs) + n * length (concat bs).
+  Proof.
+    induction bs as [|b bs IH]; intros cvecs Hn; [cbn; lia|].
+    cbn [hist_vecs] in Hn. inversion Hn as [|x l Hb Hrest]; subst.
+    cbn [hist_log flat_map concat]. rewrite !app_length, (IH _ Hrest).
+    rewrite (L_g_length n).
+    - rewrite map_length. pose proof (new_count b cvecs). lia.
+    - apply Forall_forall. intros p Hp. apply in_map_iff in Hp. destruct Hp as (it & E & Hit). subst p.
+      cbn [snd item_info]. rewrite Forall_forall in Hb. apply Hb. apply in_map. exact Hit.
   Qed.
 End EvaluatorsProofs.
